@@ -784,6 +784,15 @@ func (s *sim) step(ev string) {
 		s.deliver(a, s.lastDlv, true)
 	case "stale": // captured earlier, never delivered, older than the newest accepted
 		s.deliver(a, s.withheld, true)
+	case "stalechal": // an authentic path_challenge of the peer that is OLDER than the newest accepted record (a
+		// record the peer sealed earlier and that was overtaken), arriving from a: V may answer it within the
+		// amplification budget, but a stale record does not make a a candidate path
+		if f := s.reseal(s.withheld, func(r *rec) {
+			r.typ = ctRRC
+			r.payload = []byte{rrcChal, 0xc1, 0xc2, 0xc3, 0xc4, 0xc5, 0xc6, 0xc7, 0xc8}
+		}); f != nil {
+			s.deliver(a, f, true)
+		}
 	case "flip": // genuine fresh record with one ciphertext bit flipped (right CID), original lost
 		if d := s.pWrite(); d != nil {
 			f := append([]byte(nil), d...)
